@@ -372,6 +372,16 @@ func clause(m *Member, d OpDesc, o, depth int) (qframe.FilterClause, string) {
 
 // withRepeat names one of the columns twice (not last), one time in four.
 func withRepeat(cols []string, d OpDesc, o int) []string {
+	if pick(d, o+2)%2 == 0 {
+		// without the unique id column: groups of more than one row
+		var kept []string
+		for _, c := range cols {
+			if c != "__id" {
+				kept = append(kept, c)
+			}
+		}
+		cols = kept
+	}
 	if len(cols) == 0 || pick(d, o)%4 != 0 {
 		return cols
 	}
